@@ -82,4 +82,18 @@ theorem tie_Type (w : World) (g : Graph) (r : Ref) (fd : FieldD) (t : FType) (ht
   | enum x => simp only [typeEnv]; by_cases hp : pgsPresence (fileD w r.file) fd = true <;> simp [hp]
   | scalar k => simp only [typeEnv]; by_cases hp : pgsPresence (fileD w r.file) fd = true <;> simp [hp]
 
+/-! ### output path and import path (lang/go/package.go over pgs.FilePath of name.go) -/
+
+theorem tie_setExt (input : Bytes) : PgsGo.setExt input = filePath_SetExt input PgsGo.pbgo := rfl
+
+/-- **`OutputPath`**: the input path with the extension replaced by `.pb.go`; in the default mode its
+    base name pushed onto the import path of the file's `go_package` -/
+theorem tie_OutputPath (srcRel : Bool) (input opt : Bytes) :
+    PgsGo.outputPath srcRel input opt = context_OutputPath input srcRel (PgsGo.optionPackage input opt) := by
+  cases srcRel <;> rfl
+
+/-- **`ImportPath`** (no `import_prefix` parameter) -/
+theorem tie_ImportPath (input opt : Bytes) :
+    PgsGo.importPath input opt = context_ImportPath [] (PgsGo.optionPackage input opt) := rfl
+
 end Pgs.GoTypes
